@@ -346,6 +346,8 @@ def cases(tier, seed, spec):
         yield {'kind': 'bfs', 'slice': k, 'of': n, 'universe': 'abc' if tier == 'thorough' else 'ab'}
     for k in range(n):          # the same exploration with multi-character names (distinct str objects per call)
         yield {'kind': 'bfs', 'slice': k, 'of': n, 'universe': 'ab', 'long_names': True}
+    for k in range(n):          # ... and with a label that names an object AND a property (relation-style tables)
+        yield {'kind': 'bfs', 'slice': k, 'of': n, 'universe': 'ab', 'shared_names': True}
     for k in range(400 if tier == 'quick' else 6000):
         yield {'kind': 'random', 'n': k}
     for k in range(48 if tier == 'quick' else 600):
@@ -393,6 +395,11 @@ def run_bfs(concepts, case, spec):
     if case.get('long_names'):
         ren = {'a': 'obj-a', 'b': 'obj-b', 'c': 'obj-c', 'p': 'prop-p', 'q': 'prop-q'}
         others = [(tuple(ren[x] for x in o), tuple(ren[x] for x in p), b) for o, p, b in others]
+    if case.get('shared_names'):
+        ren = {'a': 'a', 'b': 'b', 'c': 'c', 'p': 'a', 'q': 'q'}
+        U_p = ['a', 'q']
+        others = [(tuple(o), tuple(ren[x] for x in p), b) for o, p, b in others]
+        COL.count('bfs_with_a_label_on_both_axes')
     inst = op_instances(U_o, U_p, others)
     start = ((), (), ())
     seen = {TableModel(*start).key(): start}
@@ -447,6 +454,9 @@ def run_random(concepts, case, spec):
     D = concepts.Definition
     rng = random.Random(f"{spec['seed']}/c13/{case['n']}")
     names_o, names_p = NAMES_O, NAMES_P
+    if case['n'] % 3 == 2:          # relation-style: most labels name an object and a property
+        names_o, names_p = NAMES_O[:4] + ['x', 'y'], NAMES_O[:3] + ['y', 'z', 'p1']
+        COL.count('random_histories_with_labels_on_both_axes')
     d = random_definition(D, rng, names_o, names_p)
     others = [random_definition(D, rng, names_o, names_p) for _ in range(3)]
     length = rng.randint(30, 200)
